@@ -13,7 +13,7 @@ From Coq Require Import Floats.
 From SC.Model Require Import Base Num Types Config Case Post Parser Items Interp NumF64.
 From SC.Spec Require Import Expr.
 From SC.Model Require Import Chrono UiTokens Rx RuleFns Rules Format Lexer Api Run64.
-From SC.Proofs Require Import C02_Parser C02_Examples RegexNeeds.
+From SC.Proofs Require Import C02_Parser C02_Examples RegexNeeds C02_EndToEnd.
 
 Section WithNum.
 Context {F : Type} {NF : Num F}.
@@ -157,6 +157,36 @@ Theorem C02_shape_token_infos : forall (F : Type) (NF : Num F) (today : Z) (cfg 
              (N.of_nat (length d1) + N.of_nat k1 + 1 + N.of_nat k2 + N.of_nat (length d2)) (TNumber x2 Decimal) d2].
 Proof. exact @shape_token_infos. Qed.
 
+(* END TO END, from the characters of the line to the value and its printed form: for all non-empty
+   digit strings d1 d2, any number of blanks around the operator and every language tag, the public
+   entry point Api.execute on the text `d1 op d2` under the default configuration returns one line
+   whose value is the binary64 result of the operator (division by zero giving 0) and whose output
+   is that value printed by the configured number format; the tokens are exactly the three expected *)
+Theorem C02_text_to_value : forall ck lang d1 d2 k1 k2 o x1 x2,
+  d1 <> [] -> d2 <> [] -> forallb digit d1 = true -> forallb digit d2 = true -> shape_ok (bop_char o) k2 ->
+  read_decimal default_config d1 = Some x1 -> read_decimal default_config d2 = Some x2 ->
+  exists obs,
+    execute LX ck default_config lang (shape_line d1 k1 (bop_char o) k2 d2)
+    = Ok {| er_status := true; er_lines := [Some obs] |} /\
+    lo_result obs = LOk (number_text default_config (arith_of o x1 x2)) (AItem (INumber (arith_of o x1 x2) Decimal)) /\
+    lo_tokens obs = [TNumber x1 Decimal; TOperator (bop_char o); TNumber x2 Decimal].
+Proof. exact shape_execute. Qed.
+
+(* the value is the reference semantics of Spec/Expr on the tree `d1 op d2` *)
+Theorem C02_text_to_value_denote : forall o x y, arith_of o x y = denote (Bin o (Lit x) (Lit y)).
+Proof. exact arith_of_denote. Qed.
+
+(* non-vacuity, with the printed text: "12   +  30" is 42 and "7/0" is 0, for any clock *)
+Theorem C02_text_to_value_examples : forall ck,
+  (exists obs, execute LX ck default_config (s "en") (s "12   +  30") = Ok {| er_status := true; er_lines := [Some obs] |}
+               /\ lo_result obs = LOk (s "42") (AItem (INumber 42 Decimal))) /\
+  (exists obs, execute LX ck default_config (s "tr") (s "7/0") = Ok {| er_status := true; er_lines := [Some obs] |}
+               /\ lo_result obs = LOk (s "0") (AItem (INumber 0 Decimal))).
+Proof. exact e2e_instances. Qed.
+
+Print Assumptions C02_text_to_value.
+Print Assumptions C02_text_to_value_denote.
+Print Assumptions C02_text_to_value_examples.
 Print Assumptions C02_arith_line_regex_tokinizer.
 Print Assumptions C02_shape_token_infos.
 Print Assumptions C02_token_level.
